@@ -229,7 +229,7 @@ def readKindR : Kind → Nat → Bool → Rd → Res (Val × Rd)
   | .natural _, l, _, r => readUintLoopR 8 l r
   | .time _, l, _, r =>
       (readUintLoopR 8 l r).bind fun
-        | (.nat ms, r') => .ok (.nat (ms * 1000000 % 2 ^ 64), r') 0
+        | (.nat ms, r') => .ok (.nat (min ms 9223372036854 * 1000000), r') 0
         | x => .ok x 0
   | .fixedUint 1 _, _, _, r => (rdByte r).bind fun (x, r') => .ok (.nat x, r') 0
   | .fixedUint w _, l, _, r => readUintLoopR w l r
